@@ -530,7 +530,8 @@ def c15_r5(repo, report, tier):
                 bad.append({"demux": e["slot"].key[:60], "with": [x["slot"].key[:50] for x in same_row]})
             if e["val"].get("truthy:args.discard_trimmed") is True:
                 bad.append({"demux": e["slot"].key[:60], "problem": "accepted together with --discard-trimmed"})
-            if (e["inner"] == "Demultiplexer") == paired or (e["inner"] in ("PairedDemultiplexer", "CombinatorialDemultiplexer")) != paired:
+            # (the combinatorial mode needs -p, which implies paired mode; the single-end model cannot know that)
+            if (e["inner"] == "Demultiplexer" and paired) or (e["inner"] == "PairedDemultiplexer" and not paired):
                 bad.append({"demux": e["slot"].key[:60], "problem": f"{e['inner']} used in {mode} mode"})
         report.ob("C15.R5", f"{mode}:demultiplexer is the only consuming step on its paths", not bad, facts={"demultiplexers": sorted({e['inner'] for e in demux}), "problems": bad[:3]},
                   expected="a demultiplexer replaces the plain sink and the trimmed/untrimmed filters; --discard-trimmed is rejected", loc="src/cutadapt/cli.py")
